@@ -126,5 +126,6 @@ func main() {
 		"C03":        run,
 		"c03bworker": c03b.Worker,
 		"c03bdump":   c03b.Dump,
+		"c03bcount":  c03b.Count,
 	}, map[string]xstate.Factory{"syncw": syncw.New})
 }
